@@ -255,8 +255,18 @@ def run_one(ch, env):
             iy0 = ch.draw(256 - h + 1, kind="iy0")
             ix0 = ch.draw(256 - w + 1, kind="ix0")
             iy, ix, by, bx = slice(iy0, iy0 + h), slice(ix0, ix0 + w), slice(y0, y0 + h), slice(x0, x0 + w)
+            inspect = ch.draw(4, kind="inspect_basis")
             with pio.update_image(p, masked_mode=IMODE[mode], default="masked") as basis:
+                # callers may look at the tile they were handed before updating it
+                if inspect == 1:
+                    basis.asarray()
+                elif inspect == 2:
+                    basis.is_completely_masked()
+                elif inspect == 3:
+                    _ = (basis.dtype, basis.mode, basis.width)
                 Image.from_array(src.copy()).update_into_maskable_buffer(basis, iy, ix, by, bx)
+            if inspect:
+                probe("op_update_after_inspection")
             cur = model.get(p)
             buf = cur.copy() if cur is not None else undefined_buffer(tile_mode, 256, 256)
             model_update(mode, buf, src, iy, ix, by, bx)
@@ -287,6 +297,9 @@ def run_one(ch, env):
             else:
                 ia = pio.read_image(pa, default="masked", masked_mode=IMODE[mode])
                 ib = pio.read_image(pb, default="masked", masked_mode=IMODE[mode])
+                if ch.draw(2, kind="inspect_held"):
+                    ia.is_completely_masked()
+                    ib.asarray()
                 Image.from_array(srcs[0][0].copy()).update_into_maskable_buffer(ia, srcs[0][1], srcs[0][2], srcs[0][1], srcs[0][2])
                 Image.from_array(srcs[1][0].copy()).update_into_maskable_buffer(ib, srcs[1][1], srcs[1][2], srcs[1][1], srcs[1][2])
                 pio.write_image(pa, ia)
